@@ -580,7 +580,7 @@ def gen_case(rng, variant, op, sig, p, thr, big):
             B = pmul(B, C, p)
         elif k == 1 and op not in ("invmod", "invmodunit"):               # exact multiple
             A = pmul(A, B, p) if A else A
-        elif k == 2:
+        elif k == 2 and B:
             B[-1] = 1                                                     # monic divisor
         if op in ("invmod", "invmodunit"):
             n2 = max(n2, 2); B = rand_poly(rng, p, n2); A = rand_poly(rng, p, max(n1, 1))
@@ -769,6 +769,9 @@ def build_all(fieldkeys_small, fieldkeys_real, have, extra_thr=None):
     return bins, logs
 
 
+HANGS = [0]      # hangs seen so far in this run (all binaries)
+
+
 def run_binary(binary, lines, timeout=60):
     """run the implementation harness on the lines; a crash or a hang costs the case it died on, the rest is
     re-submitted.  A hang is cut after `timeout` seconds (20 s for the re-submissions); after 3 hangs the remaining
@@ -778,6 +781,8 @@ def run_binary(binary, lines, timeout=60):
     start = 0
     hdr = None
     hangs = 0
+    if HANGS[0] > 0:
+        timeout = min(timeout, 15)      # a hang was already seen in this run: do not wait long again
     while start < len(lines):
         rc, o, err = vf.run_lines(binary, "".join(lines[start:]), timeout=timeout)
         h = [l for l in o if l.startswith("#thr")]
@@ -793,8 +798,9 @@ def run_binary(binary, lines, timeout=60):
             crashed.append((k, "hang" if rc == 124 else rc))
         if rc == 124:
             hangs += 1
-            timeout = 20
-            if hangs >= 3:
+            HANGS[0] += 1
+            timeout = 15
+            if hangs >= 3 or HANGS[0] >= 8:
                 for j in range(k + 1, len(lines)):
                     crashed.append((j, "not-run-after-3-hangs"))
                 break
@@ -875,7 +881,8 @@ def run_stream(chk, label, bins, tag, drv, cases, kthr, sthr, stats):
     with ThreadPoolExecutor(max_workers=6) as ex:
         for fk, outs, crashed, hdr in ex.map(run_field, sorted(byfield)):
             if outs is None:
-                chk.broke("%s: no implementation harness for field %s" % (label, fk))
+                chk.broke("%s: no implementation harness for field %s with thresholds %d/%d" % (label, fk, kthr, sthr))
+                crashed_all += [(i, "not-run-no-binary") for i in byfield[fk]]
                 continue
             if hdr:
                 t = hdr.split()
@@ -1014,7 +1021,7 @@ def main(tier, replay=None):
                 tag = "real" if (k, s) == (kth, sth) else "t2" if (k, s) == (2, 2) else "t13"
                 run_stream(chk, "replay", bins, tag, drv, [(c["variant"], op, c.get("field", "mi32"), c["p"], a)], k, s, stats)
     else:
-        per = 14 if tier == "quick" else 150
+        per = 24 if tier == "quick" else 150
         run_stream(chk, "thr2", bins, "t2", drv, gen_cases(rng, tier, 2, False, per, FIELDS_SMALLTHR, have), 2, 2, stats)
         run_stream(chk, "real", bins, "real", drv, gen_cases(rng, tier, kth, True, per, FIELDS_REAL, have), kth, sth, stats)
         run_stream(chk, "unnormalised-operands", bins, "t2", drv, unnormalised_cases(rng, 6 if tier == "quick" else 60, FIELDS_SMALLTHR), 2, 2, stats)
